@@ -434,6 +434,44 @@ func ifValueFamily(lv []*Expr) *core.Family {
 	}
 }
 
+// if with an undecided guard over branches that are decided by the known request parts:
+// the guard is boolean-typed but may still fail under a completion (wrongly typed or
+// missing operand, overflow), and the two branches may fold to the same constant without
+// being the same expression. The `if` may then be neither dropped nor replaced by a branch.
+func ifGuardFamily() *core.Family {
+	ctxA, ctxRB, ctxS := Access(Var("context"), "a"), Access(Access(Var("context"), "r"), "b"), Access(Var("context"), "s")
+	guards := []*Expr{
+		Bin(OLt, ctxA, L(Long(5))), Bin(OEq, ctxA, L(Long(1))), Bin(OEq, ctxRB, L(Long(1))), Bin(OGt, Bin(OAdd, ctxA, L(Long(gen.MaxI))), L(Long(0))),
+		Bin(OContains, ctxS, L(Long(1))), Un(ONot, Bin(OLt, ctxA, L(Long(5)))), Bin(OAnd, Bin(OLt, ctxA, L(Long(5))), L(Bool(true))), Bin(OOr, Bin(OLe, ctxRB, L(Long(5))), L(Bool(false))),
+		Has(Var("context"), "a"), Bin(OIn, Var("principal"), L(Entity("G", "g2"))), Bin(OEq, Var("principal"), L(Entity("U", "alice"))), Bin(OEq, Var("resource"), L(Entity("G", "g1"))),
+		Bin(OLt, Access(Var("principal"), "age"), L(Long(5))), Un(OIsEmpty, ctxS),
+	}
+	branches := []*Expr{
+		L(Bool(true)), L(Bool(false)), Bin(OEq, Var("principal"), L(Entity("U", "alice"))), Bin(OEq, Var("resource"), L(Entity("G", "g1"))), Bin(OEq, Var("action"), L(Entity("Action", "view"))),
+		Bin(OEq, ctxA, L(Long(1))), Bin(OEq, L(Long(1)), L(Long(1))), Has(Var("context"), "a"), Bin(OIn, Var("principal"), L(Entity("G", "g2"))), Bin(ONe, Var("resource"), L(Entity("U", "bob"))),
+	}
+	nb := len(branches)
+	return &core.Family{
+		Name: "if-undecided-guard-decided-branches",
+		Desc: fmt.Sprintf("if g then t else e for %d boolean-typed guards that fail under some completion x %d^2 branches decided by the known parts (equal constants from different expressions included) x 2 policy shapes x %d partial environments x all completions", len(guards), nb, len(penvs)),
+		N:    int64(len(guards) * nb * nb),
+		Run: func(t *core.T, i int64) {
+			x := int(i)
+			e := If(guards[x/(nb*nb)], branches[x/nb%nb], branches[x%nb])
+			nt := false
+			for _, sh := range condShapes[:2] {
+				if checkPolicy(t, sh.name+":if-guard", func() *xast.Policy { return sh.mk(e.ToAST()) }, sh.forb, e.String) {
+					nt = true
+				}
+			}
+			if nt {
+				t.Nontrivial()
+			}
+			t.SampleF(e.String)
+		},
+	}
+}
+
 // scope forms x simple conditions.
 // condition lists: every list of 1..3 when/unless clauses over bodies that are known
 // true / false / erroring, or that read a part which is unknown in some environments.
@@ -577,7 +615,7 @@ func Check() *core.Check {
 		Assumptions: []string{"satisfaction is judged by x/exp/eval.Eval on PolicyToNode (its conformance is C01)", "forbid policies under ignored parts are not constrained by the property and are skipped"},
 		Families: func(tier string) []*core.Family {
 			lv := leaves()
-			fams := []*core.Family{scopeFamily(), condListFamily(), condFamily("depth1-unary", gen.Unary, lv, 1), condFamily("depth1-binary", gen.Binary, lv, 2)}
+			fams := []*core.Family{scopeFamily(), condListFamily(), ifGuardFamily(), condFamily("depth1-unary", gen.Unary, lv, 1), condFamily("depth1-binary", gen.Binary, lv, 2)}
 			if tier == "thorough" {
 				fams = append(fams, condFamily("depth1-if", gen.Ternary, lv, 3), depth2Family(lv[:9]), ifValueFamily(lv))
 			} else {
